@@ -473,11 +473,17 @@ fn xterm_seq(k: &Value, mods: u64, alt: bool) -> Option<Vec<u8>> {
     }
     if kind == 5 {
         let c = arg;
-        if mods == 2 && ((97..=122).contains(&c) || (48..=57).contains(&c)) {
+        if mods == 2 && (33..=126).contains(&c) && !(65..=90).contains(&c) && ![91, 93, 95].contains(&c) {
             return Some(vec![27, c as u8]);
+        }
+        if mods == 3 && (97..=122).contains(&c) && c != 111 && c != 112 {
+            return Some(vec![27, (c - 32) as u8]);
         }
         if mods == 4 && (97..=122).contains(&c) {
             return Some(vec![(c - 96) as u8]);
+        }
+        if mods == 4 && c == 32 {
+            return Some(vec![0]);
         }
         return None;
     }
@@ -867,7 +873,7 @@ pub fn generate(rng: &mut Rng, n: usize, tier: &str) -> Vec<Value> {
     for n in 1..=12u64 {
         xkeys.push(json!([4, n]));
     }
-    for c in (97..=122u64).chain(48..=57u64) {
+    for c in 32..=126u64 {
         xkeys.push(json!([5, c]));
     }
     for k in &xkeys {
